@@ -28,6 +28,9 @@ MinOfSet(S) == CHOOSE m \in S : \A x \in S : m <= x
 NSure == Cardinality({i \in 1 .. Len(pend) : pend[i].sure})
 NAll == Len(pend)
 
+\* the record says the datastore refused this operation's write with an error (the process lives on): then the
+\* operation may fail; a failed take hands nothing out and a failed submission is not accepted
+WF == "wf" \in DOMAIN e /\ e.wf
 TReset == /\ Is("Reset") /\ Adv /\ run' = e.run /\ bound' = e.bound /\ pend' = <<>> /\ sureCount' = 0 /\ UNCHANGED viol
 
 TSubmit ==
@@ -38,7 +41,7 @@ TSubmit ==
     /\ viol' = viol \o Failed(<<
           <<"C10.BoundRespected", (e.res = "ok" /\ e.c # "" /\ bound > 0 /\ e.grp = 0) => NSure < bound, "a batch was accepted although the queue already held the configured maximum">>,
           <<"C10.RejectOnlyWhenFull", (e.res = "full" /\ e.grp = 0) => bound > 0 /\ NAll >= bound, "a batch was rejected as 'queue full' although the queue was not full">>,
-          <<"C10.AcceptsValid", e.res # "err", "a submission failed with an unexpected error">>
+          <<"C10.AcceptsValid", e.res = "err" => WF, "a submission failed with an unexpected error">>
           >>, l, run)
     /\ UNCHANGED <<run, bound, sureCount>>
 
@@ -52,7 +55,7 @@ TNext ==
              <<"C10.RejectedLeavesNoTrace", (e.res = "ok" /\ e.c # "" /\ cands # {}) => ~pend[MinOfSet(cands)].full,
                  "a submission that met a full queue (and died before it was answered) left a batch behind that was handed out">>,
              <<"C10.NoLoss", (e.res = "ok" /\ e.c = "") => NSure = 0, "the queue reported nothing to hand out although an acknowledged batch was never handed out">>,
-             <<"C10.NextWorks", e.res # "err", "GetNextBatch failed">>
+             <<"C10.NextWorks", e.res = "err" => WF, "GetNextBatch failed">>
              >>, l, run)
     /\ UNCHANGED <<run, bound, sureCount>>
 
